@@ -443,6 +443,8 @@ def spec_check_session(ops, out):
                                 index=idx, observed=line)
         if r and r[0] == "OOR" and t[0] in ("INS", "PROBE", "BUSY") and used is not None and used >= 512:
             return dict(kind="bucket outside the table", op_index=i, op=op, usedSize=used, observed=line)
+        if t[0] in ("PUTB", "TBW"):
+            inserted = None       # raw byte writes into the table: records are no longer those of inserts
         if inserted is None:
             continue
         if t[0] == "INS" and r and r[0] == "B":
@@ -453,9 +455,13 @@ def spec_check_session(ops, out):
         if t[0] in ("PROBE", "BUSY") and r and r[0] == "R":
             key = unhx(t[1])
             rk, rd = unhx(r[1]), unhx(r[2])
-            hit = (t[0] == "BUSY" and (field(rd, "type") != 0)) or (t[0] == "PROBE" and not (rk == unhx(t[2])))
+            # The API's own miss indicator is `type == T_EMPTY` (probe clears the type of the caller's
+            # result object on a miss; every caller tests getType()).  An internal key of 0 decodes every
+            # EMPTY slot (key word 0 xor data word 0), so a probe for it "finds" an empty slot and returns
+            # data 0 = type T_EMPTY: a miss for every caller.  Only results with a non-empty type are hits.
+            hit = field(rd, "type") != 0
             if t[0] == "PROBE" and rk == unhx(t[2]):
-                # result key unchanged: either a miss, or a hit on a key equal to the sentinel
+                # result key unchanged: a miss (or a hit on a key equal to the sentinel: not decidable here)
                 hit = False
             if not hit:
                 continue
@@ -667,7 +673,9 @@ def run(ctx):
                         "compiler/CPU implement relaxed std::atomic<U64> load/store as the C++ memory model says"]
     ctx.assumptions = ["table model = code by differential testing of all observable words, not by proof",
                        "C08_no_blend leaves the xor coincidence k^k1 = d1^d2 (k not the key of either store) as an explicit case: same class as a 64-bit hash collision",
-                       "domain: used sizes >= 512 entries (C08_index_small_refuted documents the failure below)"]
+                       "domain: used sizes >= 512 entries (C08_index_small_refuted documents the failure below)",
+                       "a probe result with type T_EMPTY is a miss (the API's own convention); internal key 0 (Zobrist key == contempt hash, the 2^-64 collision class) "
+                       "decodes every empty slot and is returned as such a miss; C08_bucket_refines_map exempts key 0 in the same way"]
     replay = {}
     tie_broken = False
     # (1) translate
